@@ -618,10 +618,15 @@ Proof. intros H. apply check_templates_iff. exact H. Qed.
 Lemma file_namespace_spec body : file_namespace body = namespace_of body.
 Proof. induction body as [|x r IH]; [reflexivity|]. destruct x; cbn [file_namespace namespace_of]; try reflexivity; try exact IH. Qed.
 
+(* Registry.Add (regenerated expression): a folded header param is optional exactly when it
+   carries the ? marker; a default value or a missing type does not matter *)
+Lemma header_param_optional_spec opt has_default has_type : header_param_optional opt has_default has_type = opt.
+Proof. destruct opt, has_default, has_type; reflexivity. Qed.
+
 Lemma split_header_spec ns : split_header ns = (head_params ns, after_head ns).
 Proof.
   induction ns as [|x r IH]; [reflexivity|]. destruct x; cbn [split_header head_params after_head]; try reflexivity.
-  rewrite IH. reflexivity.
+  rewrite IH, header_param_optional_spec. reflexivity.
 Qed.
 
 Lemma soydoc_params_spec ps :
